@@ -253,6 +253,10 @@ def run(prog, rep, tier):
     check_axis_carriers(prog, rep)
     check_contraction_labels(prog, rep)
     check_binary_sides(prog, rep)
+    # the two-pointer merge / inner product trust the cached claim "block indices are lexsorted":
+    # its truthfulness is a necessary condition for the linear-combination clause (rules of C02)
+    from .c02 import check_flag_q
+    check_flag_q(prog, rep, modules=(NPC, ))
     rep.floor('AXIS-carriers', 4)
     rep.floor('SIDES-binary', 4)
     rep.assumptions += ['equality of block values with numpy results is NOT decided',
